@@ -32,6 +32,7 @@ type Result struct {
 	Mismatches   []Mismatch       `json:"mismatches"`
 	DevConfirmed int              `json:"dev_cases_matching_mechanism_model"`
 	DevRefuted   []int            `json:"dev_cases_where_code_meets_definition"`
+	DevMasked    int              `json:"dev_cases_masked_by_like_escaping"`
 	Infra        []string         `json:"infra"`
 	PoolUse      map[string]int   `json:"pool_use"`
 	StageUse     map[string]int   `json:"stage_use"`
@@ -155,7 +156,10 @@ func run(casesPath, outPath string, seed int64, replayDir string, maxReplays int
 		}
 		if out.sig == "" {
 			res.Agree++
-			if c.Dev {
+			if c.Dev && likeHostile(p.k, c) {
+				// a second, concrete-level defect (LIKE escaping) hides the modelled one: not a refutation
+				res.DevMasked++
+			} else if c.Dev {
 				res.DevRefuted = append(res.DevRefuted, c.Idx)
 				if replayDir != "" && len(res.DevRefuted) <= 5 {
 					writeReplay(replayDir, fmt.Sprintf("refuted_%s_%d", c.Frag, c.Idx), out.replay)
@@ -335,6 +339,13 @@ func runLogCase(w *World, p *prepared) *caseOutcome {
 		out.infra = "chsql does not support: " + strings.Join(obs.Unsup, " | ")
 		return out
 	}
+	if obs.Code == 200 && len(obs.SQL) > 0 {
+		if d := danglingQualifiers(obs.SQL[len(obs.SQL)-1]); len(d) > 0 {
+			obs.Code = 500
+			obs.SQLErr = append(obs.SQLErr, "static: unknown identifier "+d[0]+" (chsql only reports it when a row reaches the expression)")
+			out.replay["static_analysis"] = d
+		}
+	}
 	got := map[item]int{}
 	orderBad := ""
 	if obs.Code == 200 && obs.ParseErr == "" {
@@ -361,6 +372,7 @@ func runLogCase(w *World, p *prepared) *caseOutcome {
 	}
 	why := devWhy(k, c)
 	if obs.Code != 200 || obs.ParseErr != "" {
+		out.matchesPl = c.Dev && c.PlErr
 		if len(obs.SQLErr) > 0 {
 			out.sig = why + "|error:sql-rejected"
 			out.msg = fmt.Sprintf("the generated SQL is rejected: %s (query %s)", obs.SQLErr[0], req.Query)
@@ -507,6 +519,32 @@ func devWhy(k *Conc, c *ACase) string {
 			firstDrop = i
 		}
 	}
+	for i, st := range q.P {
+		if st.K == "json" && i+1 < len(q.P) && q.P[i+1].K == "lf" && (q.P[i+1].Op == "!=" || q.P[i+1].Op == "!~") {
+			return "parser:json-keyword-read-as-label-filter"
+		}
+	}
+	// like(samples.string ..) in the SELECT block created by the labels join
+	lj := -1
+	for i, st := range q.P {
+		if st.K == "json" {
+			break // Go engine from here on
+		}
+		if lj < 0 && (st.K == "jsonp" || st.K == "regexp" || st.K == "drop" || st.K == "dropv") {
+			lj = i
+		}
+		if lj >= 0 && i > lj && st.K == "lf" && (st.Op == "|=" || st.Op == "!=" || strings.HasPrefix(st.Arg, "L_")) {
+			renewed := false
+			for j := lj; j < i; j++ {
+				if (q.P[j].K == "jsonp" || q.P[j].K == "regexp") && !(q.P[j+1].K == "jsonp" || q.P[j+1].K == "regexp") {
+					renewed = true
+				}
+			}
+			if !renewed {
+				return "linefilter:like-after-labels-join"
+			}
+		}
+	}
 	for _, st := range q.P {
 		if st.K == "json" && q.Lim == 0 {
 			return "go-engine:limit-omitted"
@@ -568,16 +606,44 @@ func devWhy(k *Conc, c *ACase) string {
 			}
 		}
 	}
-	// shape
-	var ks []string
+	// no known trigger: the constructs of the query (sorted, without repetition)
+	set := map[string]bool{}
 	for _, st := range q.P {
-		ks = append(ks, st.K+st.Op)
+		set[st.K+st.Op] = true
 	}
-	lim := ""
+	for _, m := range q.M {
+		set["m"+m.Op] = true
+	}
 	if q.Lim > 0 {
-		lim = "|limit"
+		set["limit"] = true
 	}
-	return "shape:" + strings.Join(ks, ",") + lim
+	if q.Fwd {
+		set["forward"] = true
+	}
+	var ks []string
+	for s := range set {
+		ks = append(ks, s)
+	}
+	sort.Strings(ks)
+	return "unattributed:" + strings.Join(ks, ",")
+}
+
+func likeHostile(k *Conc, c *ACase) bool {
+	for _, st := range c.Q.P {
+		if st.K != "lf" {
+			continue
+		}
+		var operand string
+		if st.Op == "|=" || st.Op == "!=" {
+			operand = k.Feat[st.Arg].S
+		} else if strings.HasPrefix(st.Arg, "L_") {
+			operand = k.Feat[map[string]string{"L_f1": "f1", "L_f2": "f2"}[st.Arg]].S
+		}
+		if strings.HasSuffix(operand, "'") || strings.HasPrefix(operand, "'") || strings.Contains(operand, `\`) {
+			return true
+		}
+	}
+	return false
 }
 
 func likeKind(op string) string {
